@@ -19,37 +19,37 @@ package brain
 //@   props C18 C20
 //@   nosafety C18
 //@   requires wf_server(s) && createRequest != nil && !leader_checked
-//@   modifies ghost.leader_checked ghost.backend_writes
+//@   modifies ghost.leader_checked ghost.backend_writes ghost.backend_call
 //@   ensures [follower-writes-nothing] !leader_checked ==> backend_writes == old(backend_writes)
 //@ func (*Server).Update(ctx, updateRequest) (resp, err)
 //@   props C18 C20
 //@   nosafety C18
 //@   requires wf_server(s) && updateRequest != nil && !leader_checked
-//@   modifies ghost.leader_checked ghost.backend_writes
+//@   modifies ghost.leader_checked ghost.backend_writes ghost.backend_call
 //@   ensures [follower-writes-nothing] !leader_checked ==> backend_writes == old(backend_writes)
 //@ func (*Server).Delete(ctx, deleteRequest) (resp, err)
 //@   props C18 C20
 //@   nosafety C18
 //@   requires wf_server(s) && deleteRequest != nil && !leader_checked
-//@   modifies ghost.leader_checked ghost.backend_writes
+//@   modifies ghost.leader_checked ghost.backend_writes ghost.backend_call
 //@   ensures [follower-writes-nothing] !leader_checked ==> backend_writes == old(backend_writes)
 //@ func (*Server).Compact(ctx, compactRequest) (resp, err)
 //@   props C18 C20
 //@   nosafety C18
 //@   requires wf_server(s) && compactRequest != nil && !leader_checked
-//@   modifies ghost.leader_checked ghost.backend_writes
+//@   modifies ghost.leader_checked ghost.backend_writes ghost.backend_call
 //@   ensures [follower-writes-nothing] !leader_checked ==> backend_writes == old(backend_writes)
 //@ func (*Server).Watch(r, server) (err)
 //@   props C18 C20
 //@   nosafety C18
 //@   requires wf_server(s) && r != nil && server != nil && !leader_checked
-//@   modifies ghost.leader_checked ghost.backend_writes
+//@   modifies ghost.leader_checked ghost.backend_writes ghost.backend_call
 //@   ensures [follower-serves-no-watch] !leader_checked ==> backend_writes == old(backend_writes)
 //@ func (*Server).compactLoop()
 //@   props C18 C20
 //@   nosafety C18
 //@   requires wf_server(s) && !leader_checked
-//@   modifies ghost.leader_checked ghost.backend_writes
+//@   modifies ghost.leader_checked ghost.backend_writes ghost.backend_call
 
 // every read handler: the backend is read only after the leader's revision has been adopted;
 // a failed sync is returned as an error without touching the backend
@@ -57,29 +57,29 @@ package brain
 //@   props C18 C20
 //@   nosafety C18
 //@   requires wf_server(s) && r != nil && !synced
-//@   modifies ghost.synced ghost.backend_reads
+//@   modifies ghost.synced ghost.backend_reads ghost.backend_call
 //@   ensures [failed-sync-reads-nothing] !synced ==> backend_reads == old(backend_reads)
 //@ func (*Server).Range(ctx, r) (resp, err)
 //@   props C18 C20
 //@   nosafety C18
 //@   requires wf_server(s) && r != nil && !synced
-//@   modifies ghost.synced ghost.backend_reads
+//@   modifies ghost.synced ghost.backend_reads ghost.backend_call
 //@   ensures [failed-sync-reads-nothing] !synced ==> backend_reads == old(backend_reads)
 //@ func (*Server).Count(ctx, r) (resp, err)
 //@   props C18 C20
 //@   nosafety C18
 //@   requires wf_server(s) && r != nil && !synced
-//@   modifies ghost.synced ghost.backend_reads
+//@   modifies ghost.synced ghost.backend_reads ghost.backend_call
 //@   ensures [failed-sync-reads-nothing] !synced ==> backend_reads == old(backend_reads)
 //@ func (*Server).ListPartition(ctx, r) (resp, err)
 //@   props C18 C20
 //@   nosafety C18
 //@   requires wf_server(s) && r != nil && !synced
-//@   modifies ghost.synced ghost.backend_reads
+//@   modifies ghost.synced ghost.backend_reads ghost.backend_call
 //@   ensures [failed-sync-reads-nothing] !synced ==> backend_reads == old(backend_reads)
 //@ func (*Server).RangeStream(r, server) (err)
 //@   props C18 C20
 //@   nosafety C18
 //@   requires wf_server(s) && r != nil && server != nil && !synced
-//@   modifies ghost.synced ghost.backend_reads
+//@   modifies ghost.synced ghost.backend_reads ghost.backend_call
 //@   ensures [failed-sync-reads-nothing] !synced ==> backend_reads == old(backend_reads)
